@@ -46,11 +46,35 @@ def sample_kauri_config(rng):
     return cfg
 
 
+def apply_layout(values, layout):
+    """The caller's array in a given memory layout (same values).  Returns (array handed to the library, base buffer)."""
+    if layout == "F":
+        X = np.asfortranarray(values.copy())
+        return X, X
+    if layout == "strided":
+        big = np.zeros((2 * values.shape[0], values.shape[1] + 1), dtype=values.dtype)
+        big[:] = 7.5 if values.dtype.kind == "f" else 7
+        big[::2, :-1] = values
+        return big[::2, :-1], big
+    if layout == "readonly":
+        X = values.copy()
+        X.flags.writeable = False
+        return X, X
+    X = values.copy()
+    return X, X
+
+
 def dataset(cfg, which):
-    """(X, A) number `which` of the pool; datasets differ in size and values, not in the number of features."""
+    """(X, A) number `which` of the pool; datasets differ in size, values and memory layout, not in the number of features."""
     c = dict(cfg)
     c["n"] = cfg["pool_n"][which]
     X = make_data(c, which)
+    layout = (cfg.get("layouts") or ["C", "C", "C"])[which]
+    if layout == "int":
+        X = np.round(X * 2).astype(np.int64)
+        X, _ = apply_layout(X, "C")
+    else:
+        X, _ = apply_layout(X, layout)
     if cfg["family"] == "Kauri":
         A = None
         if cfg["params"].get("kernel") == "precomputed":
@@ -70,6 +94,7 @@ def generate(rng):
         kmin = max(2, cfg["params"]["n_clusters"])
     fam = cfg["family"]
     cfg["pool_n"] = [cfg["n"], rng.randint(kmin, 13), rng.randint(kmin, 13)]
+    cfg["layouts"] = [weighted(rng, [("C", 5), ("F", 1.5), ("strided", 1.5), ("readonly", 1.5), ("int", 1)]) for _ in range(3)]
     is_kauri = fam == "Kauri"
     info = FAMILIES.get(fam, {})
     deco = None
@@ -84,6 +109,8 @@ def generate(rng):
         kinds += [("predict_proba", 1), ("crash_fit", 2)]
     if not deco:
         kinds += [("clone", 1)]
+    if not is_kauri:
+        kinds += [("other_fit", 1.2)]
     if sparse and cfg["d"] >= 2:
         kinds += [("path", 2.5), ("crash_path", 1)]
     ops = []
@@ -91,7 +118,7 @@ def generate(rng):
     for _ in range(rng.randint(1, 8)):
         k = weighted(rng, kinds)
         op = {"op": k}
-        if k in ("fit", "fit_predict", "path", "crash_fit", "crash_path", "badparam_fit", "malformed_fit"):
+        if k in ("fit", "fit_predict", "path", "crash_fit", "crash_path", "badparam_fit", "malformed_fit", "other_fit"):
             op["data"] = rng.randrange(3)
             last_ds = op["data"] if k in ("fit", "fit_predict", "path") else last_ds
         if k in ("predict", "predict_proba", "score"):
@@ -186,7 +213,7 @@ def first_difference(a, b):
 
 
 def malformed(X, how, K):
-    X = X.copy()
+    X = np.array(X, dtype=np.float64, copy=True)
     if how == "nan":
         X[0, 0] = np.nan
     elif how == "inf":
@@ -213,6 +240,14 @@ def execute(record):
     try:
         pool = [dataset(cfg, i) for i in range(3)]
         pristine = [(X.copy(), None if A is None else A.copy()) for X, A in pool]
+        layouts = cfg.get("layouts") or ["C", "C", "C"]
+        bases = [X if X.base is None else X.base for X, _ in pool]
+        pristine_bases = [b.copy() for b in bases]
+
+        def private_copy(X, which):
+            """A private copy of a caller array with the SAME memory layout (so that both executions run the same program)."""
+            lay = layouts[which]
+            return apply_layout(np.array(X, copy=True, order="C"), "C" if lay == "int" else lay)[0]
         user_params = copy.deepcopy(cfg["params"])
         world = World(log, res, rng)
         world.step_budget = 20000
@@ -256,13 +291,13 @@ def execute(record):
                     return True
             return False
 
-        def run_reference(kind, X, A, args, params):
+        def run_reference(kind, X, A, args, params, which=0):
             """Fresh object, the hyper-parameters the user had set when the call was made, private copies of the data,
             no faults."""
             saved = (world.opt_raise_at, world.gemini_fault)
             world.opt_raise_at, world.gemini_fault = None, None
             ref = build(copy.deepcopy(params), for_reference=True)
-            Xr = X.copy()
+            Xr = private_copy(X, which)
             Ar = None if A is None else A.copy()
             out, exc = None, None
             try:
@@ -350,6 +385,13 @@ def execute(record):
                                 res.violate(f"C12:clone_roundtrip:{k}", {"how": "clone"})
                         model = new
                         harness_for(model)
+                    elif kind == "other_fit":
+                        # a SECOND estimator built from the very same parameter objects (GEMINI instance, groups list,
+                        # kernel_params dict, feature mask, callable kernel) is fitted in between
+                        other = type(model)(**model.get_params(deep=False))
+                        harness_for(other)
+                        other.fit(X, A)
+                        res.probe("other_object_fits")
                     elif kind == "badparam_fit":
                         name, val = op["bad"]
                         old = model.get_params()[name]
@@ -393,9 +435,16 @@ def execute(record):
 
                 # ---- side effects on the caller's arrays (every op)
                 for i, ((Xp, Ap), (Xc, Ac)) in enumerate(zip(pristine, pool)):
-                    if Xc.shape != Xp.shape or Xc.tobytes() != Xp.tobytes() or (Ap is not None and Ac.tobytes() != Ap.tobytes()):
-                        res.violate(f"C12:caller_data_modified:{base_kind}", {"dataset": i, "history": done})
-                        pool[i] = (Xp.copy(), None if Ap is None else Ap.copy())
+                    if Xc.shape != Xp.shape or Xc.tobytes() != Xp.tobytes() or (Ap is not None and Ac.tobytes() != Ap.tobytes()) \
+                            or bases[i].tobytes() != pristine_bases[i].tobytes():
+                        res.violate(f"C12:caller_data_modified:{base_kind}", {"dataset": i, "layout": layouts[i], "history": done})
+                        # restore the caller's values in place (the arrays keep their identity and layout)
+                        w = bases[i].flags.writeable
+                        bases[i].flags.writeable = True
+                        bases[i][...] = pristine_bases[i]
+                        bases[i].flags.writeable = w
+                        if Ap is not None:
+                            Ac[...] = Ap
 
                 # ---- hyper-parameters
                 if outcome != "ok" and base_kind == "path":
@@ -417,7 +466,7 @@ def execute(record):
 
                 # ---- the judged comparison
                 if kind in ("fit", "fit_predict", "path") and (outcome == "ok" or outcome.startswith("raised")):
-                    ref, ref_ret, ref_exc, Xr, Ar = run_reference(kind, X, A, op.get("args", {}), params_at_call)
+                    ref, ref_ret, ref_exc, Xr, Ar = run_reference(kind, X, A, op.get("args", {}), params_at_call, op.get("data", 0))
                     if (outcome != "ok") != (ref_exc is not None):
                         res.violate(f"C12:history_dependence:{kind}:raised", {"object": outcome, "reference": ref_exc, "history": done})
                     elif outcome == "ok":
